@@ -506,3 +506,67 @@ class Expected(object):
 
     def length(self, p):
         return sum(len(c) for c in self.values.get(p, []))
+
+
+# ----------------------------------------------------------------------------- directed builder
+def build_file(rng, chans, nseg=1, nchunks=(1,), endian='<', inter=False, root_props=None, group_props=None,
+               values_fn=None, continuation='mixed'):
+    """chans: [(group, name, type, n_per_chunk, props)] -> segs.
+       Segment 0 lists root, groups and all channels in full; later segments continue with
+       'same' listings, no metadata, or restated full indexes (continuation: mixed/same/none/full)."""
+    segs = []
+    groups = []
+    for g, _, _, _, _ in chans:
+        if g not in groups:
+            groups.append(g)
+    index = {}
+    for g, name, t, n, props in chans:
+        index[qpath(g, name)] = (t, n, (4 * n + 3 * n) if t == 'str' else None)
+    for si in range(nseg):
+        s = Seg()
+        s.endian = endian if isinstance(endian, str) else endian[si % len(endian)]
+        s.interleaved = bool(inter)
+        mode = 'full' if si == 0 else (continuation if continuation != 'mixed' else rng.choice(['same', 'none', 'full']))
+        if mode == 'none':
+            s.has_meta, s.new_obj_list = False, False
+        else:
+            s.new_obj_list = (mode == 'full')
+            if si == 0:
+                s.listing.append(('/', 'nodata', None))
+                if root_props:
+                    s.props['/'] = list(root_props)
+                for g in groups:
+                    s.listing.append((qpath(g), 'nodata', None))
+                    if group_props and g in group_props:
+                        s.props[qpath(g)] = list(group_props[g])
+            for g, name, t, n, props in chans:
+                p = qpath(g, name)
+                s.listing.append((p, 'full' if mode == 'full' else 'same', index[p]))
+                if si == 0 and props:
+                    s.props[p] = list(props)
+        act = []
+        if si == 0 or mode == 'full':
+            if si == 0:
+                act.append(('/', False, None))
+                act += [(qpath(g), False, None) for g in groups]
+            act += [(qpath(g, name), True, index[qpath(g, name)]) for g, name, t, n, props in chans]
+        else:
+            act = list(segs[-1].active)
+        s.active = act
+        nch = nchunks[si % len(nchunks)]
+        if not any(obj_size(ix) > 0 for _, ix in s.data_objects()):
+            nch = 0
+        for c in range(nch):
+            ch = {}
+            for p, ix in s.data_objects():
+                t, n, tot = ix
+                if values_fn is not None:
+                    ch[p] = values_fn(p, t, n)
+                elif t == 'str':
+                    ch[p] = strings_with_payload(rng, n, tot - 4 * n)
+                else:
+                    ch[p] = rand_values(rng, t, n)
+            s.chunks.append(ch)
+        s.raw_flag = True
+        segs.append(s)
+    return segs
